@@ -16,7 +16,8 @@ class C03(FprCheck):
     props_modules = ["E3fpVerif.Props.C03"]
     rule = ("seeded conformers x option draws, each with renumbered twins built by Chem.RenumberAtoms (all n! orders for "
             "molecules of <= 4 atoms, otherwise reversal, adjacent transpositions and seeded random permutations) and "
-            "with the conformers of the molecule stored in shuffled order. Non-trivial: >= 2 levels; distinct by "
+            "with the conformers of the molecule stored in shuffled order; one fingerprinter fed the molecule and then its renumbered copy in each "
+            "calling form (run(conf, mol), run(conf), run(id, mol)); a 268-heavy-atom chain once per run. Non-trivial: >= 2 levels; distinct by "
             "(molecule, conformer, options, permutation).")
 
     def gen_cases(self):
@@ -25,7 +26,7 @@ class C03(FprCheck):
         for ref, ci in self.sample_confs(n):
             mol = MG.load_ref(ref)
             na = mol.GetNumAtoms()
-            o = MG.gen_opts(rng)
+            o = MG.cap_opts(ref, MG.gen_opts(rng))
             qs = MG.gen_queries(rng, o, 1)
             base = {"t": "perm", "ref": ref, "conf": ci, "tr": None, "perm": None, "opts": o, "queries": qs}
             yield base
